@@ -630,8 +630,18 @@ func enumerateRequests(id string, hs []hHandler, tokens map[string][]vToken, ful
 		add(h, base, nil, true, "status503+fail")
 	}
 	// negative probes: never annotated verb/path pairs
+	// (a placeholder glued to literal text - "/{t}x" - is named differently by every engine: what such a template matches is
+	//  engine-defined, so no request of its verb can be called "never annotated"; outside the bounds, as stated in DESIGN 10.5)
+	gluedVerbs := map[string]bool{}
+	for _, h := range hs {
+		for _, seg := range strings.Split(h.Path, "/") {
+			if strings.Contains(seg, "{") && !(strings.HasPrefix(seg, "{") && strings.HasSuffix(seg, "}") && strings.Count(seg, "{") == 1) {
+				gluedVerbs[h.Verb] = true
+			}
+		}
+	}
 	probe := func(verb, path string) {
-		if annotated[verb+" "+path] || strings.Contains(path, "{") {
+		if annotated[verb+" "+path] || strings.Contains(path, "{") || gluedVerbs[verb] {
 			return
 		}
 		for _, h := range hs { // do not probe something a parameterised template of the same verb could match
